@@ -36,7 +36,9 @@ def table_variants():
                ("Schema", lambda: S("s")), ("nested", lambda: S("s", parent=S("d"))), ("str2", lambda: "s2"),
                # chains that differ in an outer level only
                ("list-outer2", lambda: ["d2", "s"]), ("nested-outer2", lambda: S("s", parent=S("d2"))),
-               ("three", lambda: ["a", "d", "s"]), ("three-outer2", lambda: S("s", parent=S("d", parent=S("b"))))]
+               ("three", lambda: ["a", "d", "s"]), ("three-outer2", lambda: S("s", parent=S("d", parent=S("b")))),
+               # chains of different depth that share their outer levels
+               ("outer-only", lambda: "d"), ("outer-two", lambda: ["a", "d"]), ("inner-two-of-three", lambda: S("s", parent=S("d")))]
     out = []
     for name in ("t", "u"):
         for sn, sf in schemas:
@@ -263,7 +265,8 @@ def h(o):
 
 
 SCHEMA_CHAIN = {"none": (), "str": ("s",), "list": ("d", "s"), "tuple": ("d", "s"), "Schema": ("s",), "nested": ("d", "s"), "str2": ("s2",),
-                "list-outer2": ("d2", "s"), "nested-outer2": ("d2", "s"), "three": ("a", "d", "s"), "three-outer2": ("b", "d", "s")}
+                "list-outer2": ("d2", "s"), "nested-outer2": ("d2", "s"), "three": ("a", "d", "s"), "three-outer2": ("b", "d", "s"),
+                "outer-only": ("d",), "outer-two": ("a", "d"), "inner-two-of-three": ("d", "s")}
 
 
 def check_pair(mon, a, b, da, db, klass):
@@ -546,7 +549,29 @@ def _consumer_join_mirrored_names(order):
         return "join-validation", True, ""
 
 
+def _consumer_select_after_replace_table(star):
+    """The star-selection set after replace_table: a column of the new table selected afterwards is kept unless table.* really was selected."""
+    reg = registry()
+    T = reg["Table"]
+    a, b = T("ta"), T("tb")
+    q = reg["Query"].from_(a).select(a.star if star else a.x).replace_table(a, b).select(b.y)
+    sql = q.get_sql()
+    return "star-selection", ('"y"' in sql) != star, sql
+
+
+def _consumer_select_after_unrelated_replace():
+    reg = registry()
+    T = reg["Table"]
+    a, b, c = T("ta"), T("tb"), T("tc")
+    q = reg["Query"].from_(a).select(a.x).replace_table(c, b).select(b.y)
+    sql = q.get_sql()
+    return "star-selection", '"y"' in sql, sql
+
+
 CONSUMERS = [
+    ("select-after-replace_table", lambda: _consumer_select_after_replace_table(False)),
+    ("select-after-replace_table-star", lambda: _consumer_select_after_replace_table(True)),
+    ("select-after-unrelated-replace_table", _consumer_select_after_unrelated_replace),
     ("self-join-alias-after-hash", _consumer_self_join_alias_after_hash),
     ("star-after-hashed-alias", _consumer_star_after_hashed_alias),
     ("join-mirrored-names-0", lambda: _consumer_join_mirrored_names(0)),
